@@ -22,6 +22,7 @@ EXPLICIT = {
     "str::traits::index": "index", "str::traits::index_mut": "index", "slice::index::index": "index", "slice::index::index_mut": "index",
     "String::remove": "index", "String::insert": "index", "String::insert_str": "index", "String::split_off": "index", "String::drain": "index",
     "String::replace_range": "index", "Vec::drain": "index", "Vec::split_off": "index", "slice::chunks": "index", "slice::chunks_exact": "index",
+    "slice::chunks_mut": "index", "slice::chunks_exact_mut": "index", "slice::rchunks": "index", "slice::rchunks_mut": "index",
     "slice::windows": "index", "slice::rotate_left": "index", "slice::rotate_right": "index", "slice::split_at_mut": "index", "char::from_digit": "index",
     "char::to_digit": "index", "str::split_at_mut": "index",
     "Duration::mul_f32": "duration", "Duration::mul_f64": "duration", "Duration::div_f32": "duration",
